@@ -222,9 +222,13 @@ func visitHarnesses(quick, thorough map[string]int) []harness {
 	var hs []harness
 	for _, n := range names {
 		q, t := quick, thorough
-		if deeperVisit[n] {
-			// these checkers only report on structures one level deeper than the default bound
-			q = withBound(withBound(quick, "K", 4), "paths", 6000)
+		if k := deeperVisit[n]; k > 0 {
+			// these checkers only report on structures deeper than the default bound
+			q = withBound(withBound(quick, "K", k), "paths", 4000*(k-2))
+		}
+		if n == "defaultCaseOrder" {
+			// a default clause between two cases needs clause lists of three
+			q, t = withBound(q, "B", 3), withBound(t, "B", 3)
 		}
 		if n == "filepathJoin" {
 			// the checker compares an import path of 13 bytes ("path/filepath"): strings must be able to be that long
@@ -291,4 +295,4 @@ func withBound(m map[string]int, k string, v int) map[string]int {
 
 // deeperVisit: checkers whose diagnostics need depth 4 (found by probing which
 // visit harnesses never reached a diagnostic at depth 3); their explorations are cheap.
-var deeperVisit = map[string]bool{"emptyFallthrough": true, "typeAssertChain": true, "badCond": true, "unlambda": true}
+var deeperVisit = map[string]int{"emptyFallthrough": 4, "typeAssertChain": 4, "badCond": 4, "unlambda": 4, "sortSlice": 5, "sqlQuery": 5}
